@@ -37,6 +37,9 @@ pub struct Case {
     /// 0 idle (calls issued after the close), 1 open streams + pending calls, 2 pending calls only
     pub phase: u8,
     pub open_streams: u8,
+    /// peer streams / datagrams sent in the same flight right before the terminating action
+    #[serde(default)]
+    pub burst: u8,
 }
 
 fn reason_strategy() -> impl Strategy<Value = String> {
@@ -71,7 +74,7 @@ pub fn case_strategy() -> impl Strategy<Value = Case> {
         3 => (0u8..5, 1u8..60, prop_oneof![3 => Just(0u8), 2 => any::<u8>(), 1 => Just(255u8), 1 => Just(254u8)]).prop_map(|(t, d, p)| Style::FinInsideFrame(t, d, p)),
         3 => (0u8..3).prop_map(Style::Malformed),
     ];
-    (0u8..3, any::<bool>(), style, 0u8..3, 0u8..4).prop_map(|(flavor, wt_is_server, style, phase, open_streams)| Case { flavor, wt_is_server, style, phase, open_streams })
+    (0u8..3, any::<bool>(), style, 0u8..3, 0u8..4, prop_oneof![3 => Just(0u8), 1 => 1u8..8, 1 => 8u8..48]).prop_map(|(flavor, wt_is_server, style, phase, open_streams, burst)| Case { flavor, wt_is_server, style, phase, open_streams, burst })
 }
 
 #[derive(Default)]
@@ -154,9 +157,18 @@ async fn exec_async(case: Arc<Case>) -> CaseResult {
                 let c = conn.clone();
                 let sh = shared.clone();
                 tasks.push(tokio::spawn(async move {
-                    let r = match c.$call().await {
-                        Ok(_) => "Ok".to_string(),
-                        Err(e) => conn_err(&e),
+                    // traffic that arrives before the end is legitimately handed out first
+                    let mut n = 0;
+                    let r = loop {
+                        match c.$call().await {
+                            Ok(_) => {
+                                n += 1;
+                                if n > 200 {
+                                    break "Ok".to_string();
+                                }
+                            }
+                            Err(e) => break conn_err(&e),
+                        }
                     };
                     sh.lock().unwrap().results.push(($name.to_string(), r));
                 }));
@@ -174,6 +186,20 @@ async fn exec_async(case: Arc<Case>) -> CaseResult {
         Style::QuicClose(c, r) | Style::WtClose(c, r) => Some(format!("ApplicationClosed({},{})", c, vcore::hex(r))),
         _ => None,
     };
+    // "at every point of the session's life": a burst of healthy peer traffic in the same flight
+    if let Some((rc, _, sid)) = raw.as_ref() {
+        for k in 0..case.burst {
+            if k % 5 == 4 {
+                let _ = rc.send_datagram(refcodec::enc_datagram(*sid, b"burst").into());
+            } else if let Ok(mut s) = rc.open_uni().await {
+                let mut b = refcodec::enc_uni_header_wt(*sid);
+                b.extend_from_slice(b"burst");
+                let _ = s.write_all(&b).await;
+                let _ = s.finish();
+                keep.push(Box::new(s));
+            }
+        }
+    }
     {
         match &case.style {
             Style::WtClose(c, r) => other.as_ref().unwrap().close(wtransport::VarInt::try_from_u64(*c).unwrap(), r),
@@ -251,10 +277,23 @@ async fn exec_async(case: Arc<Case>) -> CaseResult {
     for round in 0..3 {
         macro_rules! late {
             ($name:expr, $call:ident) => {{
-                match tokio::time::timeout(bound, conn.$call()).await {
-                    Ok(Ok(_)) => shared.lock().unwrap().results.push(($name.to_string(), "Ok".into())),
-                    Ok(Err(e)) => shared.lock().unwrap().results.push(($name.to_string(), conn_err(&e))),
-                    Err(_) => return CaseResult::Timeout(format!("{} (round {round}) hangs after the session ended", $name)),
+                // items buffered before the end may still be handed out (bounded), then errors
+                let mut n = 0;
+                loop {
+                    match tokio::time::timeout(bound, conn.$call()).await {
+                        Ok(Ok(_)) => {
+                            n += 1;
+                            if n > 64 {
+                                shared.lock().unwrap().results.push(($name.to_string(), "Ok".into()));
+                                break;
+                            }
+                        }
+                        Ok(Err(e)) => {
+                            shared.lock().unwrap().results.push(($name.to_string(), conn_err(&e)));
+                            break;
+                        }
+                        Err(_) => return CaseResult::Timeout(format!("{} (round {round}) hangs after the session ended", $name)),
+                    }
                 }
             }};
         }
@@ -307,7 +346,11 @@ async fn exec_async(case: Arc<Case>) -> CaseResult {
         Style::QuicClose(c, r) | Style::WtClose(c, r) => *c != 0 || !r.is_empty(),
         _ => false,
     } || n_pending > 0;
-    CaseResult::Pass { nontrivial: nt, labels: vec![style_label(&case.style)] }
+    let mut labels = vec![style_label(&case.style)];
+    if case.burst > 0 && raw.is_some() {
+        labels.push("burst-before-end");
+    }
+    CaseResult::Pass { nontrivial: nt, labels }
 }
 
 fn style_name(s: &Style) -> &'static str {
@@ -356,7 +399,7 @@ pub fn run(run: &Run) {
         |c| judge(|| exec(c), false, "C04:hang"),
         |c| serde_json::to_value(c).unwrap(),
     );
-    for l in ["style:capsule", "style:capsule-long-reason", "style:fin", "style:quic-close", "style:wt-close", "style:reset", "style:fin-inside-data", "style:fin-inside-frame", "style:fin-after-unknown-frame-header", "style:malformed-capsule"] {
+    for l in ["style:capsule", "style:capsule-long-reason", "style:fin", "style:quic-close", "style:wt-close", "style:reset", "style:fin-inside-data", "style:fin-inside-frame", "style:fin-after-unknown-frame-header", "style:malformed-capsule", "burst-before-end"] {
         run.essential(l);
     }
 }
